@@ -137,6 +137,43 @@ func runC14(p *Prog, r *Report, tier string) {
 		r.Check(bad == "", "R-CLOSE.no-self-wait", fmt.Sprintf("%s (background goroutine %d): reaches wg.Wait()", fnKey(b), i+1), p.pos(b.Pos()),
 			"no function reachable from the goroutine waits on the wait group it belongs to", "the goroutine can reach wg.Wait() ("+bad+") while it is itself counted in the wait group: self-deadlock", true)
 	}
+	// methods invoked on the shared connection: Write only in the two senders (C09), Read/SetReadDeadline only in the
+	// liveness probe, Close only in the guarded internal close; nothing may arm a write deadline
+	allowedConn := map[string]bool{"Write": true, "Read": true, "SetReadDeadline": true, "Close": true}
+	for _, f := range p.RepoFns {
+		if !keyInPkg(fnKey(f), "pkg/exporter") {
+			continue
+		}
+		eachInstr(f, func(in ssa.Instruction) {
+			c := callOf(in)
+			if c == nil || !c.IsInvoke() || !isFieldLoad(c.Value, "pkg/exporter.ExportingProcess.connToCollector") {
+				return
+			}
+			m := c.Method.Name()
+			r.Check(allowedConn[m], "R-OWNER.conn-methods", fmt.Sprintf("%s: connToCollector.%s", fnKey(f), m), p.instrPos(in), "one of Write / Read / SetReadDeadline / Close",
+				"the background code calls "+m+" on the connection shared with the application's sends (e.g. SetDeadline also arms the WRITE deadline, so a concurrent SendSet fails with a timeout after a partial write)", true)
+		})
+	}
+	// the functions that write to the connection are called only by SendSet (mode dispatch, sanity checks, length update)
+	ss := p.Fn("(*pkg/exporter.ExportingProcess).SendSet")
+	for _, f := range p.RepoFns {
+		if !keyInPkg(fnKey(f), "pkg/exporter") {
+			continue
+		}
+		writes := false
+		eachInstr(f, func(in ssa.Instruction) {
+			if c := callOf(in); c != nil && c.IsInvoke() && c.Method.Name() == "Write" && isFieldLoad(c.Value, "pkg/exporter.ExportingProcess.connToCollector") {
+				writes = true
+			}
+		})
+		if !writes {
+			continue
+		}
+		for _, cs := range g.callers[f] {
+			r.Check(cs.Parent() == ss, "R-OWNER.sender-callers", fmt.Sprintf("%s: called from %s", fnKey(f), fnKey(cs.Parent())), p.instrPos(cs), "only SendSet calls the functions that write to the connection",
+				"a function that writes to the connection is called without going through SendSet: the refresher (or another caller) bypasses the JSON/IPFIX mode dispatch, the sanity checks and the set-length update", true)
+		}
+	}
 	// stop observability + periodicity + close on failure
 	S := p.stopClosedSet([]string{"field:pkg/exporter.ExportingProcess.stopCh"}, bodies)
 	for i, b := range bodies {
